@@ -286,6 +286,46 @@ def _collect_pair(a, b):
     return new
 
 
+def _canonical_try(node, model):
+    """Two respellings of exception handling that are the same control flow:
+    * `try: (try: B except A: H) finally: F`  is  `try: B except A: H finally: F`;
+    * `except A as e:  if isinstance(e, B): raise  ; REST` with B a subclass of A  is  `except B: raise` followed by `except A as e: REST`."""
+    hit = getattr(node, "_canon", None)
+    if hit is not None:
+        return hit
+    new = node
+    if not node.handlers and not node.orelse and node.finalbody and len(node.body) == 1 and isinstance(node.body[0], ast.Try) and not node.body[0].finalbody:
+        inner = node.body[0]
+        new = ast.copy_location(ast.Try(body=inner.body, handlers=inner.handlers, orelse=inner.orelse, finalbody=node.finalbody), node)
+    hs, changed = [], False
+    for h in new.handlers:
+        first = h.body[0] if h.body else None
+        split = None
+        if h.name and isinstance(first, ast.If) and not first.orelse and len(first.body) == 1 and isinstance(first.body[0], ast.Raise) and first.body[0].exc is None \
+                and isinstance(first.test, ast.Call) and isinstance(first.test.func, ast.Name) and first.test.func.id == "isinstance" and len(first.test.args) == 2 \
+                and isinstance(first.test.args[0], ast.Name) and first.test.args[0].id == h.name and isinstance(first.test.args[1], ast.Name):
+            sub = first.test.args[1].id
+            outer = [N_dotted(e) for e in h.type.elts] if isinstance(h.type, ast.Tuple) else ([N_dotted(h.type)] if h.type is not None else ["BaseException"])
+            if any(o in ("Exception", "BaseException") or (sub in model.classes and o in model.classes and model.is_subclass(sub, o)) for o in outer) and sub in model.classes:
+                split = sub
+        if split:
+            changed = True
+            hs.append(ast.copy_location(ast.ExceptHandler(type=ast.copy_location(ast.Name(id=split, ctx=ast.Load()), h), name=None,
+                                                          body=[ast.copy_location(ast.Raise(exc=None, cause=None), first)]), h))
+            rest = h.body[1:] or [ast.copy_location(ast.Pass(), h)]
+            hs.append(ast.copy_location(ast.ExceptHandler(type=h.type, name=h.name, body=rest), h))
+        else:
+            hs.append(h)
+    if changed:
+        new = ast.copy_location(ast.Try(body=new.body, handlers=hs, orelse=new.orelse, finalbody=new.finalbody), node)
+        ast.fix_missing_locations(new)
+    try:
+        node._canon = new
+    except AttributeError:
+        pass
+    return new
+
+
 def _induction_variables(paths, steps):
     """A variable of a `while True` loop that starts at an integer constant k and that every continuing iteration leaves one higher is the
     iteration index plus k: lv(name, loop, k) becomes idx(loop) + k, the term a `for i in itertools.count()` / enumerate loop binds."""
@@ -1043,6 +1083,8 @@ class Summariser:
 
     # ---- try
     def s_Try(self, node, st):
+        if os.environ.get("SA_NO_TRY_CANON") != "1":
+            node = _canonical_try(node, self.model)
         self._tryid += 1
         tid = st.tick("try")
         handlers = []
